@@ -238,6 +238,8 @@ def run(ctx):
                 + '. non-trivial = distinct problems with at least one root derivation / returned tree')
     search_checks.suite(ctx, PID, ORACLES, GENS, ctx.budget(1200, 12000), max_n_enum=5)
     extra(ctx)
+    import cli_common
+    cli_common.cli_suite(ctx, ctx.budget(12, 120), formats=['auto_extended', 'xml', 'jigg_xml', 'json'])      # the same through the command line itself
     common.conclude(ctx)
 
 
